@@ -681,6 +681,7 @@ def _token_tables_and_segments(ctx: Ctx):
     col.count("token_table_sign_tests", n_tab)
     col.floor("token_table_sign_tests", n_tab, 2)
     _ali_moments_table(ctx)
+    _ali_token_round_trip_table(ctx)
     f = pkg.func(f"{MOD}::_print_torch_ali_data_dir_length_moments")
     from sa.defuse import ReachingDefs
     rd = ReachingDefs(f.node)
@@ -694,6 +695,83 @@ def _token_tables_and_segments(ctx: Ctx):
            f"`{u(ucs[0])[:60]}` computes the runs of a tensor that already depends on `{excl[0]}`: removing excluded frames before "
            f"forming runs joins the segments on both sides of an excluded stretch (3 3 3 sil sil 3 3 3 counts as one segment of "
            f"length 6); whole runs must be dropped after they are formed", rel, ucs[0].lineno)
+
+
+def _ali_token_round_trip_table(ctx: Ctx):
+    """S10 by value: the per-file workers of the ali -> token and token -> ali commands are interpreted over exact tensors (sa/interp.py
+    + sa/teval.py; torch.load / torch.save / os.path.join are the modelled leaves: a dictionary of files). For several alignments the
+    token file must list each maximal run as (label, start, end) with contiguous boundaries from 0 to the number of frames, and the
+    alignment written back from it must be the original; a token file with a gap, a missing boundary, a start after 0 or an end that
+    disagrees with the feature length is refused (ValueError)."""
+    import numpy as np
+    from sa.interp import Interp
+    from sa.inteval import NotEvaluable
+    from sa.teval import frac_array
+    col, pkg = ctx.col, ctx.pkg
+    a2t = pkg.func(f"{MOD}::_torch_ali_dir_to_torch_token_dir_do_work")
+    t2a = pkg.func(f"{MOD}::_torch_token_data_dir_to_torch_ali_dir_do_work")
+    rel = a2t.module.relname
+
+    def run(f, files, *args):
+        holder = {}
+
+        def leaf(x, env):
+            it = holder["it"]
+            if isinstance(x, ast.Call):
+                cn = call_name(x)
+                if cn == "os.path.join":
+                    return "/".join(str(it.eval(a_, env)) for a_ in x.args)
+                if cn == "torch.load" and x.args:
+                    p_ = it.eval(x.args[0], env)
+                    if p_ not in files:
+                        raise NotEvaluable(f"load of a file that was not written: {p_}")
+                    return files[p_]
+                if cn == "torch.save" and len(x.args) >= 2:
+                    files[it.eval(x.args[1], env)] = it.eval(x.args[0], env)
+                    return "saved"
+            return None
+        it = Interp(leaf=leaf, tensors=True, effects=("torch.save",))
+        holder["it"] = it
+        names = [p_.name for p_ in f.params]
+        env = dict(zip(names, args))
+        for p_ in f.params[len(args):]:
+            env[p_.name] = None
+        return it.run(f.node, env)
+    alis = ([3, 3, 3, 0, 0, 5, 3, 3], [7], [1, 2, 1, 2, 2], [0, 0, 0, 0])
+    bad, n = None, 0
+    try:
+        for ali in alis:
+            files = {"ali/u.pt": frac_array(ali), "feat/u.pt": frac_array([[0]] * len(ali))}
+            kind, _ = run(a2t, files, "u.pt", "ali", "ref")
+            n += 1
+            runs = []
+            for i_, v_ in enumerate(ali):
+                if runs and runs[-1][0] == v_:
+                    runs[-1][2] = i_ + 1
+                else:
+                    runs.append([v_, i_, i_ + 1])
+            ref = files.get("ref/u.pt")
+            if kind != "return" or ref is None or [[int(z_) for z_ in r_] for r_ in np.asarray(ref).tolist()] != runs:
+                bad = bad or ("ali -> token", ali, np.asarray(ref).tolist() if ref is not None else f"{kind}", runs)
+                continue
+            for feat_dir in (None, "feat"):
+                kind, got = run(t2a, files, "u.pt", "ref", "back", feat_dir)
+                back = files.get("back/u.pt")
+                if kind != "return" or back is None or [int(z_) for z_ in np.asarray(back).tolist()] != list(ali):
+                    bad = bad or ("ali -> token -> ali", ali, np.asarray(back).tolist() if back is not None else f"{kind} {got}", list(ali))
+        # malformed token files are refused
+        for tag, ref in (("a gap between tokens", [[1, 0, 2], [2, 3, 4]]), ("a missing boundary", [[1, 0, 2], [2, -1, -1]]), ("a start after frame 0", [[1, 1, 3]]),
+                         ("an end that disagrees with the features", [[1, 0, 2], [2, 2, 5]])):
+            files = {"ref/u.pt": frac_array(ref), "feat/u.pt": frac_array([[0]] * 4)}
+            kind, got = run(t2a, files, "u.pt", "ref", "back", "feat")
+            n += 1
+            if kind != "raise" or "ValueError" not in str(got):
+                bad = bad or ("token -> ali", ref, f"{tag} is accepted ({kind})", "ValueError")
+    except NotEvaluable:
+        return
+    col.count("ali_token_round_trip_rows", n)
+    col.ob("G12", "S10", f"{rel}::ali<->token::round-trip-table", bad is None,
+           (f"{bad[0]} on {bad[1]}: got {str(bad[2])[:160]}; expected {str(bad[3])[:160]}") if bad else "", rel, a2t.line, sample=dict(rows=n))
 
 
 def _ali_moments_table(ctx: Ctx):
